@@ -109,6 +109,8 @@ macro_rules! probes_float {
                             Some(<$t>::from_bits(float_unkey(kk as u64, $w) as _))
                         }
                     })
+                    // the key line continues into negative NaNs below -inf: not probes
+                    .filter(|x: &$t| !x.is_nan())
                     .collect()
             }
             fn parse_bound(s: &str) -> Option<Self> {
@@ -167,7 +169,7 @@ pub fn check<I: Probes>(vt: &'static Vt<I>, ctx: &Ctx) -> DeclReport {
                 }
                 for x in I::probes(b) {
                     probes_n += 1;
-                    let accepted = model::satisfies(val, &x);
+                    let accepted = rule_verdict(vt, ix, val, &x);
                     let stated = holds(rel, x.pcmp(b));
                     if at_bound(&x, b) {
                         rep.nontrivial += 1;
@@ -184,8 +186,9 @@ pub fn check<I: Probes>(vt: &'static Vt<I>, ctx: &Ctx) -> DeclReport {
                 }
                 for len in n.saturating_sub(2)..=n + 2 {
                     probes_n += 1;
-                    let s = I::from_string_("ß".repeat(len));
-                    let accepted = model::satisfies(val, &s);
+                    // multi-byte fill: char count and byte count differ
+                    let s = I::from_string_(["ß", "日", "😀"][len % 3].repeat(len));
+                    let accepted = rule_verdict(vt, ix, val, &s);
                     let stated = holds(rel, Some(len.cmp(n)));
                     if len == *n {
                         rep.nontrivial += 1;
@@ -249,4 +252,20 @@ fn kind_name<I: InnerTy>() -> &'static str {
         Kind::Str => "string",
         Kind::Other => "other",
     }
+}
+
+/// Does the *implementation* accept `x` as far as rule `ix` is concerned? The constructor's verdict is
+/// used whenever it isolates the rule (no sanitizers, every other declared rule satisfied by `x` according
+/// to the reference model); otherwise the reference model's verdict for the rule stands in.
+fn rule_verdict<I: Inputs>(vt: &Vt<I>, ix: usize, val: &Val<I>, x: &I) -> bool {
+    let m = vt.model;
+    let others_ok = m.std_vals().iter().enumerate().all(|(j, v)| j == ix || model::satisfies(v, x));
+    if m.sans.is_empty() && others_ok {
+        match no_panic(|| (vt.ctor)(x.clone())) {
+            Ok(Ok(_)) => return true,
+            Ok(Err(ErrR::Ix(j))) if j == ix => return false,
+            _ => {}
+        }
+    }
+    model::satisfies(val, x)
 }
